@@ -24,6 +24,12 @@ def evalConc (prop : String) (ins outs : List String) : Verdict :=
     | some "found" => .ok "gated"
     | some r => .prop "c12_no_lost_wakeup" s!"gated replay: {" ".intercalate ins} => {r}"
     | none => .bad "gated"
+  | some "syncdrain" =>
+    match kv? outs "sync", kvNat? outs "head", kvNat? outs "readable", kvNat? outs "want" with
+    | some "ok", some hd, some rd, some want =>
+      if hd == want && rd == want then .ok "syncdrain" else .prop "c17_synced_appends_readable" s!"head={hd} readable={rd} of {want}"
+    | some s, _, _, _ => .prop "c17_synced_appends_readable" s!"sync={s}"
+    | _, _, _, _ => .bad "syncdrain"
   | _ =>
   match kv? ins "events", kv? outs "readers", kvNat? outs "head", kvNat? outs "hs", (kv? outs "stored").bind natList?,
         kvNat? outs "mono", kvNat? outs "headok" with
